@@ -14,9 +14,9 @@ PROPERTY = "C16"
 LEVEL = "model_checking"
 RULE = (
     "states = histories over {write(cfg) for cfg in the writer alphabet} u {replace index, edit index in place, shift the whole index by 0.01, insert "
-    "a curve at position 0, edit another curve, edit a header value, edit WRAP} from 14 roots (scratch LASFiles with "
+    "a curve at position 0, edit another curve, edit a header value, edit WRAP} from 16 roots (scratch LASFiles with "
     "increasing / decreasing / irregular / single-sample index, with and without units; files read with STOP agreeing "
-    "or not, STRT disagreeing, 1.2, wrapped, empty-valued items, text curve, duplicate mnemonics, depths around 3000, STRT/STOP/STEP units disagreeing); on every write "
+    "or not, STRT disagreeing, 1.2, wrapped, empty-valued items, text curve, duplicate mnemonics, depths around 3000, STRT/STOP/STEP units disagreeing, read with mnemonic_case='lower'); on every write "
     "transition: (a) frame - full snapshot before/after differs only inside the statement's allow-list, VERS untouched; "
     "(b) repeat - a write following a write with the same options is byte-identical and changes nothing; (c) truth - "
     "when the index is dirty, read(output) has STRT/STOP = first/last index, STEP = first increment, units = index "
@@ -70,6 +70,7 @@ ROOTS = {
     "read-12": file_text(vers="1.2"), "read-wrapped": file_text(wrap="YES"), "read-text": file_text(text_curve=True),
     "read-dup": file_text(dup=True), "read-stop-wrong-12": file_text(vers="1.2", stop="9"),
     "read-deep": file_text(deep=True), "read-mixed-units": file_text(mixed_units=True),
+    "readlower-12-stop-wrong": file_text(vers="1.2", stop="9"), "readlower-20": file_text(),
 }
 
 
@@ -93,8 +94,8 @@ def make_root(name):
         las.append_curve("DEPT", np.array([5.0]), unit="m")
         las.append_curve("GR", np.array([1.0]))
         return las, True
-    las = lasio.read(ROOTS[name])
-    dirty = name.startswith("read-stop-wrong")
+    las = lasio.read(ROOTS[name], mnemonic_case="lower" if name.startswith("readlower") else "upper")
+    dirty = "stop-wrong" in name
     return las, dirty
 
 
@@ -167,11 +168,11 @@ def frame_diff(before, after, wrap_given):
                 continue
             bm, bo, bu, bv, bd = ib
             am, ao, au, av, ad = ia
-            if name == "Well" and bo in ("STRT", "STOP", "STEP") and (bm, bo, bd) == (am, ao, ad):
+            if name == "Well" and bo.upper() in ("STRT", "STOP", "STEP") and (bm, bo, bd) == (am, ao, ad):
                 continue  # value and unit may be refreshed
             if name == "Curves" and pos == 0 and (bm, bo, bv, bd) == (am, ao, av, ad):
                 continue  # first curve's unit alignment
-            if name == "Version" and bo == "WRAP" and ao == "WRAP" and wrap_given:
+            if name == "Version" and bo.upper() == "WRAP" and ao.upper() == "WRAP" and wrap_given:
                 continue
             if name in ("Well", "Parameter") and (bm, bo, bu, bd) == (am, ao, au, ad):
                 # normalisation of empty values: '' / None -> 0 (with unit), None -> ''
